@@ -215,6 +215,7 @@ const (
 	FaultClose     = "close"     // connection closed without a reply
 	FaultHuge      = "huge"      // length prefix 2^32-16, then the peer goes away
 	FaultHang      = "hang"      // no reply at all and the connection stays open (only used under the scheduler)
+	FaultWrongType = "wrongtype" // a well-formed reply of another message type: x/crypto's agent client panics on it by design (not in AllFaults)
 )
 
 // AllFaults lists the fault kinds in simplest-first order.
@@ -324,6 +325,11 @@ func (a *Agent) Handle(frame []byte) vnet.Reply {
 		return vnet.Reply{Raw: []byte{0xff, 0xff, 0xff, 0xf0}, Close: true}
 	case FaultClose:
 		return vnet.Reply{Close: true}
+	case FaultWrongType:
+		if code == 11 {
+			return vnet.Reply{Raw: vnet.Frame([]byte{14, 0, 0, 0, 0})} // a sign response to an identities request
+		}
+		return vnet.Reply{Raw: vnet.Frame([]byte{12, 0, 0, 0, 0})} // an identities answer to anything else
 	case FaultHang:
 		return vnet.Reply{}
 	}
